@@ -4,6 +4,7 @@ C01 / C06 / C07 / C10 / C11 / C12(b) / C16(b) / C19 from what was observed.
 ops (JSON lists):
   ['add', name, forward|None]   add_child(new(name)[, forward])
   ['rm', k]                     remove(live[k % len(live)])
+  ['repself', k]                replace_child(live[k], live[k])                        (self-replacement, must be a no-op)
   ['rmgone', k]                 remove(a child that was removed / replaced earlier)   (stale handle, must fail cleanly)
   ['rep', k, name]              replace_child(live[k % len(live)], new(name))
   ['repf', k, name]             replace_child(lambda c: c is live[k], new(name))      (predicate form)
@@ -78,6 +79,13 @@ def replay(cls, t, hist, props=(), labels=None):
             else:
                 target = r.gone[op[1] % len(r.gone)]
                 res = lib.call(e.remove, target)
+        elif kind == 'repself':
+            # a child replaced by itself (also what e.xml_x = <the object that already is the child> does)
+            if not live:
+                skip = True
+            else:
+                target = live[op[1] % len(live)]
+                res = lib.call(e.replace_child, target, target)
         elif kind in ('rep', 'repf'):
             if not live:
                 skip = True
@@ -384,6 +392,8 @@ def case_string(hist):
             out.append('rm:%d' % op[1])
         elif op[0] == 'rmgone':
             out.append('rmgone:%d' % op[1])
+        elif op[0] == 'repself':
+            out.append('repself:%d' % op[1])
         elif op[0] in ('rep', 'repf'):
             out.append('%s:%d>%s' % (op[0], op[1], op[2]))
         elif op[0] == 'set':
